@@ -117,6 +117,7 @@ theorem C11_step_forward (a : Abs) (op : Op) (h : op.repositions = false) :
     simp only [absStep]
     cases sliceByRange a.sel (t0Of a.orig) r <;> exact ⟨posLe_refl _, by intro o ho; cases ho⟩
   | filterSlice i j => exact ⟨posLe_refl _, by intro o ho; cases ho⟩
+  | filterStride i j k => exact ⟨posLe_refl _, by intro o ho; cases ho⟩
   | removeUntimed => exact ⟨posLe_refl _, by intro o ho; cases ho⟩
   | clear => exact ⟨posLe_refl _, by intro o ho; cases ho⟩
   | rewind => cases h
